@@ -211,11 +211,11 @@ def step (d : DState) (line : String) : Except String (DState × List String) :=
         let i ← nextReg
         let kind ← next
         match kind with
-        | "new" => do let n ← nextStr; pure (i, ({ name := n } : FileS))
+        | "new" => do let n ← nextStr; pure (i, Registry.newFile n)
         | "path" => do
           let p ← nextStr
-          pure (i, ({ name := Registry.guessAlias (mkCfg d).toLower p, path := p } : FileS))
-        | "pathname" => do let p ← nextStr; let n ← nextStr; pure (i, ({ name := n, path := p } : FileS))
+          pure (i, Registry.newFilePath (mkCfg d).toLower p)
+        | "pathname" => do let p ← nextStr; let n ← nextStr; pure (i, Registry.newFilePathName p n)
         | _ => throw "bad file kind")
       pure (d.setFile i ⟨f, [], []⟩, [])
     | "set" => do
@@ -250,15 +250,15 @@ def step (d : DState) (line : String) : Except String (DState × List String) :=
     | "hc" => do
       let (i, t) ← run (do let i ← nextReg; let t ← nextStr; pure (i, t))
       let f := d.file i
-      pure (d.setFile i { f with st := { f.st with headers := f.st.headers ++ [t] } }, [])
+      pure (d.setFile i { f with st := Registry.headerComment f.st t }, [])
     | "pc" => do
       let (i, t) ← run (do let i ← nextReg; let t ← nextStr; pure (i, t))
       let f := d.file i
-      pure (d.setFile i { f with st := { f.st with comments := f.st.comments ++ [t] } }, [])
+      pure (d.setFile i { f with st := Registry.packageComment f.st t }, [])
     | "cgo" => do
       let (i, t) ← run (do let i ← nextReg; let t ← nextStr; pure (i, t))
       let f := d.file i
-      pure (d.setFile i { f with st := { f.st with cgo := f.st.cgo ++ [t] } }, [])
+      pure (d.setFile i { f with st := Registry.cgoPreamble f.st t }, [])
     | "stmt" => do
       let (r, items) ← run (do let r ← nextReg; let items ← pSItems; pure (r, items))
       pure ({ d with heap := Heap.set d.heap r items }, [])
